@@ -214,4 +214,140 @@ theorem extLoop_none (fname : String) (L : List CompressorEntry)
     simp only [hno d (by simp)]
     exact ih (fun c hc => hno c (List.mem_cons_of_mem _ hc))
 
+/-! ### acceptance specification of `dump`'s compress argument (used by `C03.resolve_total`) and the
+pieces of the ladder -/
+
+/-- Whatever `dump` ends up writing through is a registered, available compressor. -/
+theorem writer_codec_registered (r : Resolved) (n : String) (l : Option Nat)
+    (h : writer r = .ok (.codec n l)) : ∃ c ∈ compressors, c.name = n ∧ c.available = true := by
+  unfold writer at h
+  split at h
+  · cases h
+  · simp only [] at h
+    split at h
+    · cases h
+    · rename_i c hl
+      obtain ⟨hmem, hname⟩ := lookup_mem _ c hl
+      split at h
+      · cases h
+      · rename_i hav
+        have hav' : c.available = true := by simpa using hav
+        refine ⟨c, hmem, ?_, hav'⟩
+        split at h
+        · cases h; exact hname
+        · cases h; exact hname
+        · cases h; exact hname
+        · split at h
+          · cases h
+          · cases h; exact hname
+        · cases h
+
+/-- Level values `dump` accepts: `None`, a bool, an integer 0…9 (an integral float 0.0…9.0 passes `dump`'s
+own test too — `3.0 in range(10)` — and is rejected later by the codec's file object, see `writer_float`). -/
+def LevelOK : PyLevel → Bool
+  | .none => true
+  | .bool _ => true
+  | .int n => decide (0 ≤ n) && decide (n < 10)
+  | .float n => decide (0 ≤ n) && decide (n < 10)
+  | .other => false
+
+/-- Method names `dump` accepts: registered, and not `"lz4"` while the lz4 package is missing. -/
+def MethodOK (s : String) : Bool := registered s && !(s == "lz4" && !lz4Installed)
+
+/-- The compress arguments `dump` accepts. -/
+def ArgOK : CompressArg → Bool
+  | .val l => LevelOK l
+  | .str s => MethodOK s
+  | .tuple2 (.str s) l => MethodOK s && LevelOK l
+  | .tuple2 _ _ => false
+  | .tupleN _ => false
+
+theorem levelBad_eq (l : PyLevel) : levelBad l = !LevelOK l := by
+  cases l with
+  | bool b => cases b <;> simp [levelBad, LevelOK, PyLevel.inRange10]
+  | _ => simp [levelBad, LevelOK, PyLevel.inRange10]
+
+theorem finish_ok (name : String) (l : PyLevel) (t : Bool) (filename : Target) :
+    (∃ r, finish name l t filename = .ok r) ↔ filename ≠ .other := by
+  cases filename with
+  | other => simp [finish]
+  | fileobj => simp [finish]
+  | path f =>
+    simp only [finish, ne_eq, reduceCtorEq, not_false_eq_true, iff_true]
+    split
+    · exact ⟨_, rfl⟩
+    · split <;> exact ⟨_, rfl⟩
+
+theorem finish_error (name : String) (l : PyLevel) (t : Bool) (filename : Target) (e : Err)
+    (hf : finish name l t filename = .error e) : e = .valueError := by
+  cases filename with
+  | other => simp [finish] at hf; exact hf.symm
+  | fileobj => simp [finish] at hf
+  | path f =>
+    simp only [finish] at hf
+    split at hf
+    · cases hf
+    · split at hf <;> cases hf
+
+theorem str_beq (s : String) : (PyMethod.str s == PyMethod.str "lz4") = (s == "lz4") := by
+  by_cases h : s = "lz4"
+  · subst h; rfl
+  · have h1 : (PyMethod.str s == PyMethod.str "lz4") = false := by
+      rw [beq_eq_false_iff_ne]; intro hh; cases hh; exact h rfl
+    have h2 : (s == "lz4") = false := by rw [beq_eq_false_iff_ne]; exact h
+    rw [h1, h2]
+
+/-- the tail of the ladder for a method STRING -/
+theorem resolveTail_str_ok (s : String) (l : PyLevel) (t : Bool) (filename : Target) :
+    (∃ r, resolveTail (.str s) l t filename = .ok r)
+    ↔ (MethodOK s = true ∧ LevelOK l = true ∧ filename ≠ .other) := by
+  unfold resolveTail
+  rw [str_beq, levelBad_eq]
+  unfold MethodOK checkMethod
+  by_cases h4 : (s == "lz4" && !lz4Installed) = true
+  · simp [h4]
+  · by_cases hl : LevelOK l = true
+    · by_cases hr : registered s = true
+      · have h4' : (s == "lz4" && !lz4Installed) = false := by simpa using h4
+        simp only [h4', hl, hr, Bool.not_true, Bool.false_eq_true, if_false, if_true, Bool.not_false,
+          Bool.and_self, true_and]
+        exact finish_ok _ _ _ _
+      · simp [h4, hl, hr]
+    · simp [h4, hl]
+
+theorem resolveTail_str_error (s : String) (l : PyLevel) (t : Bool) (filename : Target) (e : Err)
+    (ht : resolveTail (.str s) l t filename = .error e) : e = .valueError := by
+  unfold resolveTail at ht
+  split at ht
+  · cases ht; rfl
+  · split at ht
+    · cases ht; rfl
+    · simp only [checkMethod] at ht
+      by_cases hr : registered s = true
+      · simp only [hr, if_true] at ht
+        exact finish_error _ _ _ _ _ ht
+      · simp only [hr, Bool.false_eq_true, if_false] at ht
+        cases ht; rfl
+
+theorem resolve_val (l : PyLevel) (filename : Target) :
+    resolve (.val l) filename
+      = resolveTail (.str "zlib") (if l = .bool true then .none else l) false filename := by
+  cases l with
+  | bool b => cases b <;> simp [resolve, parseArg]
+  | _ => simp [resolve, parseArg]
+
+theorem resolveTail_level (m : PyMethod) (l : PyLevel) (tgt : Target) (r : Resolved)
+    (hr : resolveTail m l true tgt = .ok r) : r.level = l := by
+  unfold resolveTail at hr
+  split at hr
+  · cases hr
+  · split at hr
+    · cases hr
+    · split at hr
+      · cases hr
+      · cases tgt with
+        | other => simp [finish] at hr
+        | fileobj => simp [finish] at hr; rw [← hr]
+        | path f => simp [finish] at hr; rw [← hr]
+
 end JoblibModel.DumpLoad
